@@ -250,7 +250,7 @@ def process_template(tmpl_text, repo=None):
         directives = []
         cur = None
         for b in block:
-            dm = re.match(r'^\s*//@(subst|sig|loop|after|before|drop_line)\b\s*(.*)$', b)
+            dm = re.match(r'^\s*//@(subst|sig|loopbody|loopend|afterloop|loop|after|before|drop_line)\b\s*(.*)$', b)
             if dm:
                 cur = {"kind": dm.group(1), "arg": dm.group(2).strip(), "payload": []}
                 directives.append(cur)
@@ -311,6 +311,27 @@ def process_template(tmpl_text, repo=None):
                     raise ExtractError(f"loop {k} not found in {kv['fn']} ({len(loops)} loops)")
                 inserts.append((loops[k - 1][1], "\n" + payload + "\n"))
                 entry["injections"].append({"where": f"loop {k}", "text": payload})
+            elif d["kind"] in ("loopbody", "loopend", "afterloop"):
+                # structural anchors (loop ordinal, not statement text): ghost text at the start /
+                # end of the K-th loop's body, or right after the loop.  They survive any change
+                # of the statements inside the loop, so a changed statement is judged by the
+                # verifier instead of being lost with its hint.
+                if loops is None:
+                    loops = loop_header_positions(t1[find_body_open(t1, 0):])
+                    off = find_body_open(t1, 0)
+                    loops = [(a + off, b + off) for a, b in loops]
+                k = int(d["arg"])
+                if k < 1 or k > len(loops):
+                    raise ExtractError(f"loop {k} not found in {kv['fn']} ({len(loops)} loops)")
+                bo = loops[k - 1][1]
+                bc = find_matching_brace(t1, bo)
+                if d["kind"] == "loopbody":
+                    inserts.append((bo + 1, "\n" + payload + "\n"))
+                elif d["kind"] == "loopend":
+                    inserts.append((bc, "\n" + payload + "\n"))
+                else:
+                    inserts.append((bc + 1, "\n" + payload + "\n"))
+                entry["injections"].append({"where": f"{d['kind']} {k}", "text": payload})
             elif d["kind"] in ("after", "before"):
                 sm = re.match(r'^`(.*?)`$', d["arg"])
                 anchor = sm.group(1).replace("\\n", "\n")
